@@ -53,4 +53,12 @@ PROPS = {
             {"pkg": "./c06", "harness": "Harness_text_raw", "params": {"quick": {"n": 3, "quoted": 2}, "thorough": {"n": 4, "quoted": 2}}, "wall": {"thorough": "40m"}},
         ],
     },
+    "C16": {
+        "technique": "bounded symbolic execution of reader.Read_str (scanner included) and repl.multiLine on symbolic bracket structures with symbolic string/comment content, every cut, every surplus/wrong closer; SMT (z3) decides assertions",
+        "outside": "the Go-constructor brackets, unterminated strings (the statement is about brackets), cuts inside a token, the ^ reader macro, the interactive Execute loop (terminal I/O); structures deeper/wider than the bound",
+        "runs": [
+            {"pkg": "./c16", "harness": "Harness_cut", "overlay": {"/repo/repl/zz_verif_export.go": "harness/overlays/repl_export.go"},
+             "params": {"quick": {"depth": 2, "width": 1, "strlen": 1}, "thorough": {"depth": 2, "width": 2, "strlen": 2}}, "wall": {"thorough": "40m"}},
+        ],
+    },
 }
